@@ -56,7 +56,7 @@ func Inject(r *rand.Rand, c *cfg.Config, kind string, n int) {
 		name := fmt.Sprintf("nopeP%d", n)
 		switch r.Intn(4) {
 		case 0:
-			c.Params = append(c.Params, cfg.KV{K: fmt.Sprintf("injp%d", n), V: cfg.Str(choose2(r, "%"+name+"%", "a%"+name+"%b", "%%%"+name+"%", "a%%b%%c%"+name+"%d%%e"))})
+			c.Params = append(c.Params, cfg.KV{K: fmt.Sprintf("injp%d", n), V: cfg.Str(choose2(r, "%"+name+"%", "a%"+name+"%b", "%%%"+name+"%", "a%%b%%c%"+name+"%d%%e", "%"+name+"%%"+name+"%"))})
 		case 1:
 			if len(c.Decorators) > 0 {
 				d := &c.Decorators[r.Intn(len(c.Decorators))]
@@ -65,7 +65,7 @@ func Inject(r *rand.Rand, c *cfg.Config, kind string, n int) {
 			}
 			fallthrough
 		default:
-			addRef(r, pickService(r, c), choose2(r, "%"+name+"%", "x%"+name+"%", "%%%"+name+"%%%", "%%x%%y%%%"+name+"%z"))
+			addRef(r, pickService(r, c), choose2(r, "%"+name+"%", "x%"+name+"%", "%%%"+name+"%%%", "%%x%%y%%%"+name+"%z", "%"+name+"%-%"+name+"%"))
 		}
 	case "missing-service":
 		name := fmt.Sprintf("nopeS%d", n)
@@ -74,7 +74,11 @@ func Inject(r *rand.Rand, c *cfg.Config, kind string, n int) {
 			d.Args = append(d.Args, cfg.Str("@"+name))
 			return
 		}
-		addRef(r, pickService(r, c), "@"+name)
+		sv := pickService(r, c)
+		addRef(r, sv, "@"+name)
+		if r.Intn(3) == 0 {
+			addRef(r, sv, "@"+name) // the same dangling reference twice: two diagnostics, possibly identical and adjacent
+		}
 	case "cycle-svc":
 		a, b := fmt.Sprintf("cycA%d", n), fmt.Sprintf("cycB%d", n)
 		switch r.Intn(3) {
